@@ -14,6 +14,8 @@ pub const A3: [u8; 3] = [0x00, 0x61, 0xFF];
 pub enum Input {
     Bytes(Vec<u8>),
     Shape(Vec<Seg>),
+    /// bytes computed by the harness (named; too long to spell out in a descriptor)
+    Named(String, std::sync::Arc<Vec<u8>>),
 }
 
 impl Input {
@@ -21,17 +23,20 @@ impl Input {
         match self {
             Input::Bytes(b) => format!("hex:{}", mc_core::report::hex(b)),
             Input::Shape(s) => format!("shape:{}", gen::shape_desc(s)),
+            Input::Named(n, b) => format!("named:{n}:len{}", b.len()),
         }
     }
     pub fn build(&self, seed: u64) -> Vec<u8> {
         match self {
             Input::Bytes(b) => b.clone(),
             Input::Shape(s) => gen::build(s, seed),
+            Input::Named(_, b) => b.as_ref().clone(),
         }
     }
     pub fn class(&self) -> &'static str {
         match self {
             Input::Bytes(_) => "micro",
+            Input::Named(..) => "derived",
             Input::Shape(s) => {
                 if s.iter().any(|g| matches!(g, Seg::R(n) if *n >= 4096)) {
                     "shape-incompressible"
